@@ -96,6 +96,88 @@ def worker(w, W, payload):
     return agg
 
 
+# ---------------------------------------------------------------- structured family
+# page -> a -> b with providers at five positions and consumers at five positions: larger than the
+# node-bounded enumeration reaches (6-9 nodes), but exactly the shapes the statement talks about
+# (siblings sharing a provider, providers around slots / inside fills / around nested tags, shadowing).
+PROVIDER_OPTS = (None, ("k",), ("m",), ("k", "m"), ("m", "k"), ("k", "k"))
+
+
+def wrap_prov(keys, nodes):
+    nodes = tuple(nodes)
+    for key in reversed(keys or ()):
+        nodes = (("Prov", key, None, nodes),)
+    return nodes
+
+
+def consumers(n):
+    return tuple(("Comp", "c", (), False, None) for _ in range(n))
+
+
+def family_cases(tier):
+    """(providers at 5 positions, consumer counts at 5 positions); counts sum <= 2 (quick) / 3 (thorough)"""
+    maxc = 3 if tier == "thorough" else 2
+    count_cfgs = [c for c in itertools.product((0, 1, 2), repeat=5) if 0 < sum(c) <= maxc]
+    popts = PROVIDER_OPTS if tier == "thorough" else PROVIDER_OPTS[:5]
+    for provs in itertools.product(popts, repeat=5):
+        if sum(1 for p in provs if p) > 3:
+            continue
+        for counts in count_cfgs:
+            yield provs, counts
+
+
+def family_program(provs, counts):
+    """positions: 0 page around a's tag / after it; 1 in a's template around its slot x; 2 in a's template around b's tag;
+    3 inside the page-level fill for a's slot x; 4 in b's template.  consumers: 0 page after the tag, 1 inside the page-level
+    fill, 2 a's template, 3 b's template, 4 the fill written in a for b's slot y"""
+    from mc.prog import Program, label
+
+    p_page, p_slot, p_btag, p_fill, p_b = provs
+    c_page, c_fill, c_a, c_b, c_bfill = counts
+    b_tpl = (("T", None),) + wrap_prov(p_b, (("Slot", "y", "", (), ()),) + consumers(c_b))
+    b_tag = ("Comp", "b", (), False, (("Fill", "y", None, None, (("T", None),) + consumers(c_bfill)),))
+    a_tpl = (("T", None),) + wrap_prov(p_slot, (("Slot", "x", "", (), (("T", None),)),)) + wrap_prov(p_btag, (b_tag,)) + consumers(c_a)
+    a_tag = ("Comp", "a", (), False, (("Fill", "x", None, None, wrap_prov(p_fill, (("T", None),) + consumers(c_fill))),))
+    page = wrap_prov(p_page, (a_tag,) + consumers(c_page))
+    comps = {"a": make_spec("a", label(a_tpl, "A")), "b": make_spec("b", label(b_tpl, "B")), "c": make_spec("c", None)}
+    return Program(label(page, "P"), comps, {})
+
+
+def family_worker(w, W, payload):
+    tier, mode = payload
+    boot.set_components_setting(context_behavior=mode)
+    h = Harness()
+    agg = par.Agg()
+    installed = False
+    for i, (provs, counts) in enumerate(family_cases(tier)):
+        if i % W != w:
+            continue
+        prog = family_program(provs, counts)
+        agg.states += 1
+        if any(provs):
+            agg.nontrivial += 1
+        exp, _it = model_outcome(prog, mode)
+        agg.expected[exp[0]] += 1
+        h.install(prog)
+        obs = h.render_page(prog)
+        agg.transitions += 1
+        agg.validated += 1
+        if obs[0] == "ok":
+            agg.observe(obs[1])
+        bad = compare_outcome(exp, obs)
+        res = residue() if (obs[0] == "ok" and not bad) else {}
+        boot.clear_render_registries()
+        if bad or res:
+            what = bad[1] if bad else f"provide registries not empty after a successful render: {res}"
+            agg.fail(f"{mode}:family:{'output' if bad else 'residue'}:providers={provs}:consumers={counts}", f"[{mode}] {what}",
+                     {"part": "family", "mode": mode, "providers": [list(p) if p else None for p in provs], "consumers": list(counts),
+                      "page": prog.page_source(), "components": {n: c.source() for n, c in prog.comps.items()}})
+        if agg.states == 9 and w == 6:
+            agg.sample({"mode": mode, "page": prog.page_source(), "components": {n: c.source() for n, c in prog.comps.items()}, "expected": list(exp)})
+    h.uninstall()
+    return agg
+
+
 # ---------------------------------------------------------------- histories
 HIST_PAGES = [
     '{% provide "k" v="K1" %}{% component "c" / %}{% component "c" / %}{% endprovide %}',
@@ -161,6 +243,13 @@ def run(ctx):
     ev.rule = ("PROG: every program over text, for, slot, component(fills), provide(k|m) and consumer components with total node count <= N; "
                "non-trivial = has a provider and a consumer. SEQ: all sequences <= 3 over 6 representative pages")
     run_parts(ctx, worker, bounds(ctx.tier))
+    for mode in ("django", "isolated"):
+        agg = par.run_sharded(family_worker, (ctx.tier, mode))
+        ev.add_part(f"family_{mode}", states=agg.states, transitions=agg.transitions, validated=agg.validated, nontrivial=agg.nontrivial,
+                    observed_distinct=len(agg.observed), expected=agg.expected,
+                    bound={"provider_positions": 5, "consumer_positions": 5, "tier": ctx.tier}, samples=agg.samples[:1])
+        ctx.fnd.merge_reports(sorted(agg.failures, key=lambda f: (len(f[2]["page"]), f[0])))
+    boot.set_components_setting(context_behavior="django")
     for mode, nseq, ntr, failures, nstates, solo in par.run_tasks(hist_task, ["django", "isolated"]):
         ev.add_part(f"histories_{mode}", states=nseq, transitions=ntr, validated=ntr, nontrivial=nseq - len(HIST_PAGES),
                     observed_distinct=len(set(solo)), bound={"depth": 3, "pages": len(HIST_PAGES)},
@@ -173,6 +262,22 @@ def run(ctx):
 def replay(ctx, case):
     mode = case["mode"]
     boot.set_components_setting(context_behavior=mode)
+    if case.get("part") == "family":
+        provs = tuple(tuple(p) if p else None for p in case["providers"])
+        prog = family_program(provs, tuple(case["consumers"]))
+        h = Harness()
+        h.install(prog)
+        exp, _ = model_outcome(prog, mode)
+        obs = h.render_page(prog)
+        res = residue()
+        boot.clear_render_registries()
+        h.uninstall()
+        print("page:     ", prog.page_source())
+        for n, c in prog.comps.items():
+            print(f"comp {n}:   ", c.source())
+        print("expected: ", exp)
+        print("observed: ", (obs[0], strip_markers(obs[1])) if obs[0] == "ok" else obs, "residue:", res)
+        return compare_outcome(exp, obs) is None and not (obs[0] == "ok" and res)
     if case.get("part") == "history":
         _, nseq, ntr, failures, _, solo = hist_task(mode)
         for f in failures:
